@@ -79,9 +79,16 @@ func genC10(r *Rng, tier string, idx int) *Plan {
 			op.Kind = "getstate"
 		case 7:
 			op.Kind = "clear"
-		case 8, 9, 10:
+		case 8, 9:
 			op.Kind = "adv"
 			op.D = pickAdv()
+		case 10:
+			if abs > 0 && idle >= 4 && idle < abs && abs/idle <= 400 && r.Chance(0.5) {
+				op.Kind = "keepalive"
+			} else {
+				op.Kind = "adv"
+				op.D = pickAdv()
+			}
 		case 11:
 			if r.Chance(0.3) {
 				op.Kind = "remove"
